@@ -5,22 +5,22 @@ HERE = os.path.dirname(os.path.dirname(os.path.abspath(__file__)))
 
 # id -> (level, technique, level text, level note, design ref)
 CHECKS = {
- "C01": ("exploration", "property-based testing (proptest) against a reference retrace model computed from the generated mapping AST; metamorphic renderings; complete enumerated by-line query universe",
+ "C01": ("exploration", "property-based testing (proptest) against a reference retrace model computed from the generated mapping AST (and from corpus files via an independent strict line recogniser); metamorphic renderings; complete enumerated by-line query universe incl. frame-file values; every mapper constructor; structured scale mappings crossing 256/4096/65536 thresholds",
    "Generated-input search: every by-line query of the finite universe of each generated mapping, in three renderings, for mapper, mapper-with-params and cache, must equal the answer of a reference model written from the property statement. Exploration: holds on everything generated, no proof.",
    "Trusts the reference model (formulas of the statement; cross-checked mapper vs cache) and the generator's domain (non-empty names, numbers < 2^32-1). Buffers 8-byte aligned.", "DESIGN.md §4 C01"),
- "C02": ("exploration", "property-based differential testing (proptest): mapper vs cache over the complete enumerated query universe of generated, token-mutated and corpus mappings",
+ "C02": ("exploration", "property-based differential testing (proptest): mapper vs cache over the complete enumerated query universe of generated, token-mutated, tall, scale and corpus mappings; all mapper constructors; model-based history stage (random repeated query sequences on long-lived objects vs fresh ones); big traces (deep chains, >16 KiB, parameter frames)",
    "Generated-input search with a differential oracle: every query of the finite universe derived from each mapping must be answered identically by ProguardMapper and by ProguardCache::parse(write(..)), and by the mapper with and without parameter index.",
    "Both implementations could be wrong in the same way (C01/C03/C04 add an independent model). Buffers 8-byte aligned.", "DESIGN.md §4 C02"),
- "C03": ("exploration", "property-based testing (proptest) against a by-params reference model from the AST, mapper and cache",
+ "C03": ("exploration", "property-based testing (proptest) against a by-params reference model from the AST (and corpus), for every params-capable mapper constructor and the cache, through remap_frame and through the typed trace API; scale mappings (65537 entries per method, repeats far back in a bucket); range aliases modulo 2^32",
    "Generated-input search over mappings rich in overloads, duplicates and inline groups; every (class, method, params) triple of the universe is compared with the model.",
    "The 'inlined callee' rule is taken from the statement (next record is a method with the identical usable range); header/field records never split such a pair by construction.", "DESIGN.md §4 C03"),
- "C04": ("exploration", "property-based testing (proptest) against a lookup reference model plus a cross-API invariant; adversarially similar names",
+ "C04": ("exploration", "property-based testing (proptest) against a lookup reference model plus a cross-API invariant; adversarially similar names (incl. Unicode spaces, UTF-8 vs UTF-16 order); every mapper constructor; scale mappings (thousands of methods / classes); corpus",
    "Generated-input search incl. a wide profile (hundreds of similar class names): every present name, near-miss and sort neighbour is looked up in mapper and cache and compared with the model; remap_method answers are cross-checked against by-line frames.",
    "Near-miss set is finite (edit distance 1, '$'/'.', case, sort neighbours).", "DESIGN.md §4 C04"),
- "C05": ("exploration", "property-based testing (proptest) print->parse with expected records from the AST, single-violation mutants, bounded-exhaustive slot product and token strings against a strict recogniser, corpus lines",
+ "C05": ("exploration", "property-based testing (proptest) print->parse with expected records from the AST (alone, embedded, and through iterator adaptors nth/skip), single-violation mutants, bounded-exhaustive slot product and token strings against a strict recogniser, corpus lines, long runs of malformed lines, 65536-byte tokens",
    "Generated and bounded-exhaustive search over the line grammar: well-formed lines must parse to exactly their printed parts (alone and embedded), lines with exactly one documented violation must be errors carrying the line.",
    "The recogniser is narrower than the parser; unclassified lines are only checked for totality. exhaustive=true refers to the named finite sub-spaces only.", "DESIGN.md §4 C05"),
- "C06": ("exploration", "property-based testing and bounded-exhaustive enumeration with a metamorphic resynchronisation relation (records(A+nl+B) = records(A)++records(B)) and totality invariants; libFuzzer stage in thorough",
+ "C06": ("exploration", "property-based testing and bounded-exhaustive enumeration with a metamorphic resynchronisation relation (records(A+nl+B) = records(A)++records(B)), totality invariants, and agreement of every iterator adaptor and of section()/clone() with plain iteration; libFuzzer stage in thorough",
    "Generated-input search over byte strings, token soups, hostile mutants, corpus cuts and all short strings over a 9-symbol alphabet; thorough adds a coverage-guided libFuzzer campaign with the same oracle in-target.",
    "Phantom error items for blank trailing input are normalised away (documented in DESIGN.md).", "DESIGN.md §4 C06"),
  "C07": ("exploration", "property-based testing (proptest): per-line model composed from the public single-line API, reference-model expectation for AST-kinded texts, conservation and identity relations, mapper==cache",
@@ -44,10 +44,10 @@ CHECKS = {
  "C13": ("exploration", "property-based testing (proptest) / fuzzing of the whole pipeline with hostile numbers, mutants and raw bytes; no-panic/no-error oracle; libFuzzer stage in thorough",
    "Generated-input search; thorough adds a coverage-guided libFuzzer campaign over the same pipeline.",
    "Overflow observable through overflow-checks in the harness profile.", "DESIGN.md §4 C13"),
- "C14": ("exploration", "property-based testing (proptest) with byte-equality oracle across repeated writes, 8 threads and 8 separately started processes; length law from the layout model",
+ "C14": ("exploration", "property-based testing (proptest) with byte-equality oracle across repeated writes, 8 threads, 8 separately started processes, 8 buffer alignments, after failed writes on the same thread, and through section() in both orders; length law from the layout model",
    "Generated-input search over mappings and corpus files; all serialisations of the same bytes must be identical across hash seeds, threads and processes.",
    "One platform only.", "DESIGN.md §4 C14"),
- "C15": ("fault_enumeration", "fault enumeration with scripted std::io::Write sinks (chunk limits, short-once, fail, interrupt at every call index) over generated mappings",
+ "C15": ("fault_enumeration", "fault enumeration with scripted std::io::Write sinks (chunk limits, short-once, fail, interrupt at every call index; short+fail, short+interrupt; write_vectored sinks; fixed-capacity sinks returning Ok(0); one-shot errors of seven kinds) over generated and sized mappings",
    "Per generated mapping the sink fault space is enumerated (every call index; k=1..16); oracle: canonical bytes on success, Err on sink failure, accepted bytes always a prefix.",
    "Sinks obey the Write contract. Complete per mapping for call indices; shortened lengths sampled for large writes.", "DESIGN.md §4 C15"),
  "C16": ("exploration", "property-based testing (proptest) from descriptor ASTs, bounded-exhaustive small descriptors, precise unterminated variants, single-edit corruptions, mapper==cache",
@@ -56,13 +56,13 @@ CHECKS = {
  "C17": ("exploration", "property-based round-trip testing (proptest): try_parse(print(T)) == T and print idempotence",
    "Generated-input search over typed traces, frames and throwables in the statement's domain.",
    "Domain predicate taken from the statement.", "DESIGN.md §4 C17"),
- "C18": ("exploration", "property-based testing (proptest) against an independent SHA-1/UUIDv5 implementation; LF/CRLF metamorphic check; cross-process equality",
+ "C18": ("exploration", "property-based testing (proptest) against an independent SHA-1/UUIDv5 implementation; LF/CRLF metamorphic check; cross-process equality; stateful API sequences (in-place and permutation edits of one buffer, section()/clone() after uuid())",
    "Generated-input search over byte strings, mappings and corpus files; ids compared with an independent computation self-tested against published vectors.",
    "SHA-1 model verified against FIPS 180 vectors and the repository's five literal ids.", "DESIGN.md §4 C18"),
- "C19": ("exploration", "property-based testing (proptest) with truth computed from the generated line list and the fold over the public record iterator",
+ "C19": ("exploration", "property-based testing (proptest) with truth computed from the generated line list and the fold over the public record iterator; fold-only stage for mid-line records and grey-zone values; evidence behind 65536 lines / 65 MiB; section() after the parent was queried",
    "Generated-input search over files whose deciding record is placed adversarially (after 49/50/51/1000/10000 negatives, last line without terminator).",
    "min_api values with a leading '+' are not generated.", "DESIGN.md §4 C19"),
- "C20": ("exploration", "compile-time Send+Sync assertions (type list enumerated) plus randomized multi-thread stress compared with the single-threaded transcript",
+ "C20": ("exploration", "compile-time Send+Sync assertions (type list enumerated) plus randomized multi-thread stress on cold instances compared with a separately computed single-threaded transcript; shared ProguardMapping (incl. sections) and shared result objects; scale mappings under stress",
    "Static part decides the realistic regressions (non-Send/Sync fields fail to compile); dynamic part is stress exploration with real threads over generated mappings.",
    "The harness does not own the schedule; interleavings are sampled, not enumerated.", "DESIGN.md §4 C20"),
 }
